@@ -89,7 +89,18 @@ static void part_shrink(void) {
 		mu = lzma_memusage(&s); live = atomic_load(&live_b);
 		if (r != LZMA_STREAM_END) FAILM("shrink", "%s (reused) returned %d", DN[k], r);
 		else if ((uint64_t)live > mu) FAILM("held-exceeds-memusage", "%s: %lld bytes still held at the end but lzma_memusage() reports %llu", DN[k], live, (unsigned long long)mu);
-		lzma_end(&s); if (atomic_load(&live_n)) FAILM("leak", "%ld blocks live after lzma_end", atomic_load(&live_n)); }
+		lzma_end(&s); if (atomic_load(&live_n)) FAILM("leak", "%ld blocks live after lzma_end", atomic_load(&live_n));
+		// (c) two concatenated Streams (big dictionary, then small), one input byte per call: at every call boundary what is held must be covered by lzma_memusage()
+		if (k == D_STREAM || k == D_AUTO) { rb_init(&o, file, sizeof file); ref_block b1 = { .data = plain, .len = plen, .dict_byte = PAIRS[pi][0] }, b2 = { .data = plain, .len = plen, .dict_byte = PAIRS[pi][1] }; ref_xz_stream(&o, &b1, 1, 1, NULL); ref_xz_stream(&o, &b2, 1, 1, NULL);
+			snprintf(desc, sizeof desc, "two concatenated Streams with dictionary codes %u then %u, one byte per call", PAIRS[pi][0], PAIRS[pi][1]); H_CASE("c09 shrink %s %s", DN[k], desc); n_cases++;
+			lzma_stream c = LZMA_STREAM_INIT; c.allocator = &AL; reset_counters(); lzma_ret cr = k == D_STREAM ? lzma_stream_decoder(&c, UINT64_MAX, LZMA_CONCATENATED) : lzma_auto_decoder(&c, UINT64_MAX, LZMA_CONCATENATED);
+			if (cr == LZMA_OK) { c.next_out = out1; c.avail_out = sizeof out1; size_t pos = 0; int reported = 0;
+				for (long g = 0; g < 100000; g++) { if (c.avail_in == 0 && pos < o.len) { c.next_in = file + pos; c.avail_in = 1; pos++; } cr = lzma_code(&c, pos == o.len ? LZMA_FINISH : LZMA_RUN);
+					uint64_t mu2 = lzma_memusage(&c); long long lv = atomic_load(&live_b);
+					if ((uint64_t)lv > mu2 && !reported) { reported = 1; FAILM("held-exceeds-memusage", "%s: after input byte %zu, %lld bytes are held but lzma_memusage() reports %llu (a limit that low would be accepted)", DN[k], pos, lv, (unsigned long long)mu2); }
+					if (cr != LZMA_OK) break; }
+				if (cr != LZMA_STREAM_END || c.total_out != 2 * plen) FAILM("shrink", "%s concatenated returned %d", DN[k], cr); n_nontrivial++; }
+			lzma_end(&c); } }
 }
 static void part_limits(int thorough) {
 	size_t plen = 30;
